@@ -244,8 +244,11 @@ def run_check(prop, tier, verif_seed, n_runs, budget_s, workers, args):
         evmod.write(os.path.join(os.environ.get("VERIF_EVIDENCE_DIR") or os.path.join(HOME, "evidence"),
                                  prop + ".json"), ev)
     except Exception as e:
-        print("HARNESS-ERROR property=%s evidence invalid: %s" % (prop, e))
-        return 2
+        if rc == 1:
+            print("note: evidence file not written (%s); violations were reported above" % (e,))
+        else:
+            print("HARNESS-ERROR property=%s evidence invalid: %s" % (prop, e))
+            return 2
     print("%s %s: %d runs (%s), %d distinct non-trivial, %.1fs wall, exit %d"
           % (prop, tier, n_eval,
              ", ".join("%s=%d" % kv for kv in sorted(total["kinds"].items())),
